@@ -95,7 +95,8 @@ def main(p):
                 fail(cell, 'exception', f'parse|{shp}', probelib.exc_info(e))
                 continue
             if parsed != vals:
-                fail(cell, 'roundtrip', cls, f'parse({built!r}) = {parsed}, built from {vals}')
+                rc = 'value-containing-line-feed' if any('\n' in v for v in vals.values()) else cls
+                fail(cell, 'roundtrip', rc, f'parse({built!r}) = {parsed}, built from {vals}')
                 continue
             try:
                 if b(**parsed) != built:
